@@ -226,9 +226,12 @@ def run(ctx):
     asan = H.build(ctx.work, "asan")
     run_monitored(ctx, asan, scns, monitor, tag="asan", cpu_limit=30)
     coverage_run(ctx, scns[:800])
+    from . import c01_deep
     if not ctx.quick:
-        from . import c01_deep
         c01_deep.run(ctx, scns, monitor)
+    else:
+        # a short coverage-guided stage on every change as well
+        c01_deep.run_fuzz(ctx, [s for s in scns if s.meta["fam"] != "dse-inflated"], int(os.environ.get("VERIF_FUZZ_RUNS", "12000")))
     rep.need("inputs_executed", rep.counters.get("inputs_executed", 0), ctx.n(100000, 1500000))
     for fam in FAMILIES:
         rep.need("family:" + fam, rep.counters.get("family:" + fam, 0), 100)
